@@ -994,7 +994,7 @@ fn evaluate_scalar_func(
 
             let result: Int64Array = str_arr
                 .iter()
-                .map(|opt| opt.map(|s| s.len() as i64))
+                .map(|opt| opt.map(|s| s.chars().count() as i64))
                 .collect();
             Ok(Arc::new(result))
         }
